@@ -265,9 +265,10 @@ def gen_inputs(tier, rnd):
                 yield {"spec": spec, "history": [first, second, first]}
     # one Reader reading its data several times (header x limit x mode): every pass is a run like the first
     for spec in (SPEC, SPEC_H, dict(SPEC, header=2), SPEC_GE):
-        for limit in (None, 0, 1, 2, 3, 4, 5):
+        for limit in (None, 0, 1, 2, 3, 4, 5, 6):
             for mode in ("yield", "continue", "raise"):
                 for table in (DUP, THREE):
+                    table = [["head", "x"]] * spec.get("header", 0) + table      # the header rows stand before the data
                     one = {"op": "noclose", "mode": mode, "limit": limit, "table": table}
                     again = dict(one, same_reader=True)
                     yield {"spec": spec, "history": [one, again, again]}
